@@ -253,7 +253,12 @@ func runCtlHistory(t *testing.T, rec *Recorder, r *rand.Rand, profile string, st
 				d = []int{0, 1, 50, 200, 1000, 7}[r.Intn(6)]
 			}
 			time.Sleep(time.Duration(d) * time.Millisecond)
-			_, err := c.Cycle(cv, d)
+			var err error
+			if profile == "C05" && r.Intn(12) == 0 {
+				_, err = c.CycleRaced(cv, d)
+			} else {
+				_, err = c.Cycle(cv, d)
+			}
 			if err != nil {
 				return // control error: regulation of this fan ends
 			}
